@@ -37,9 +37,11 @@ T0 = 1300000000.0
 def gen_grid_w(rng, T):
     """Dump starts in quarter dump periods: regular; a dropped dump / a late last dump (the reader's quick uniformity
     test fails: real timestamps throughout); interior dumps that are LATE by a quarter / half dump (the quick test
-    passes: while the windows are extracted the reader works on the estimated grid, finding C01r-F1 -- a retune event
-    dt / 32 after the real start of a late dump lies inside that dump on both grids, so the window of every dump is the
-    same on both)."""
+    passes: while the windows are extracted the reader works on the estimated grid, finding C01r-F1).  Retunes are only
+    placed (gen_wspec) at dumps that start at least a full dump period after their predecessor: a dump that overlaps
+    its predecessor shares the instant right after its start with it, and the readers attribute an event to the
+    EARLIEST dump it falls in -- "the dump during which the LO was retuned" would be ambiguous.  For such a dump the
+    retune instant lies inside that dump, and in no earlier one, on the real AND on the estimated grid."""
     kind = rng.choice(['regular', 'regular', 'gap', 'late_last', 'late_jitter'])
     g = [4 * i for i in range(T)]
     if kind == 'late_jitter':
@@ -65,15 +67,20 @@ def gen_wspec(rng):
                 nants=rng.choice([2, 2, 3]), acts=c01.gen_events(rng, T, c02.STATES),
                 targets=c01.gen_events(rng, T, c01.TARGETS), labels=c01.gen_events(rng, T, c02.LABELS[1:]),
                 dup=rng.random() < 0.5, keepdims=rng.random() < 0.5, old=rng.random() < 0.35)
-    nwin = rng.choice([2, 2, 2, 3])
+    spec['grid_kind'], spec['grid'] = gen_grid_w(rng, T)
+    g = spec['grid']
+    ok = [d for d in range(1, T) if g[d] - g[d - 1] >= 4]
+    if len(ok) < 2:
+        spec['grid_kind'], spec['grid'] = 'regular', [4 * i for i in range(T)]
+        ok = list(range(1, T))
+    nwin = rng.choice([2, 2, 2, 3]) if len(ok) >= 2 else 2
     centres = rng.sample(CENTRES, nwin)
-    nseg = rng.randint(nwin, min(T, nwin + 2))
-    starts = [0] + sorted(rng.sample(range(1, T), nseg - 1))
+    nseg = rng.randint(nwin, min(len(ok) + 1, nwin + 2))
+    starts = [0] + sorted(rng.sample(ok, nseg - 1))
     seq = list(range(nwin))
     while len(seq) < nseg:
         seq.append(rng.choice([k for k in range(nwin) if k != seq[-1]]))
     spec['retunes'] = [[starts[i], centres[seq[i]]] for i in range(nseg)]
-    spec['grid_kind'], spec['grid'] = gen_grid_w(rng, T)
     spec['sseed'] = rng.randrange(1 << 20)
     return spec
 
@@ -511,8 +518,9 @@ def compare_history_w(ctx, fx, ops, log, mouts, hid, note=True):
 
     seen = len(ctx.disagreements)
     for n, e in enumerate(log):
-        if len(ctx.disagreements) > seen:
+        if any(ctx.match_finding(x['signature']) is None for x in ctx.disagreements[seen:]):
             return          # everything later in this history follows from the first disagreement
+        seen = len(ctx.disagreements)
         if n >= len(mouts):
             ctx.disagree(pre + ';what=model_history_short', case(n), len(log), len(mouts),
                          'the model ended the history earlier than the implementation', kind='tie')
